@@ -5,6 +5,7 @@ import (
 	"context"
 	"fmt"
 	"strings"
+	"testing/synctest"
 	"time"
 
 	"github.com/jdillenkofer/pithos/internal/storage"
@@ -14,11 +15,45 @@ import (
 	"github.com/jdillenkofer/pithos/verifharness/world"
 )
 
-func runC40(rc *RunCtx) (*Violation, error) {
+func runC40(rc *RunCtx) (*Violation, error) { return runC40Mode(rc, false) }
+
+// c40OutboxStack draws a stack with the part outbox in it: mostly over
+// transaction-free bottoms (where a streaming GetObject opens every part
+// without a transaction, so what it finds depends on how far the outbox worker
+// got), now and then over the SQL part store (snapshot reads).
+func c40OutboxStack(g *sim.Tape) (world.StackSpec, bool) {
+	ob := world.LayerSpec{Kind: "outbox", Lease: time.Duration(1+g.Int(30)) * time.Second}
+	switch g.Int(8) {
+	case 3:
+		return world.StackSpec{Bottom: "fs", Layers: []world.LayerSpec{{Kind: "tink"}, ob}}, false
+	case 4:
+		return world.StackSpec{Bottom: "fs", Layers: []world.LayerSpec{ob, {Kind: "zstd", SampleSize: 64, MaxRatio: 0.9}}}, false
+	case 5:
+		return world.StackSpec{Layers: []world.LayerSpec{{Kind: "ec", Data: 2, Parity: 1, StripeShard: 1024, ShardBottom: "fs"}, ob}}, false
+	case 6:
+		return world.StackSpec{Bottom: "sql", Layers: []world.LayerSpec{ob}}, true
+	case 7:
+		return world.StackSpec{Bottom: "fs", Layers: []world.LayerSpec{{Kind: "gzip", SampleSize: 16, MaxRatio: 0.95}, ob}}, false
+	}
+	return world.StackSpec{Bottom: "fs", Layers: []world.LayerSpec{ob}}, false
+}
+
+// runC40Mode is the body of the C40 scenarios. outbox=false is the original
+// slow-download scenario (its tape draws are unchanged); outbox=true puts the
+// part outbox into the stack, writes objects of 3-5 parts (multipart uploads
+// or put+appends), adds version deletes and appends to the writers' repertoire
+// and leaves the pace of the outbox worker to the scheduler.
+func runC40Mode(rc *RunCtx, outbox bool) (*Violation, error) {
 	g := rc.Gen()
 	var stack world.StackSpec
 	sqlBacked := false
-	switch g.Int(6) {
+	stackKind := -1
+	if outbox {
+		stack, sqlBacked = c40OutboxStack(g)
+	} else {
+		stackKind = g.Int(6)
+	}
+	switch stackKind {
 	case 0, 1:
 		stack = world.StackSpec{Bottom: "fs"}
 	case 2:
@@ -41,6 +76,11 @@ func runC40(rc *RunCtx) (*Violation, error) {
 	if err := w.Start(ctx); err != nil {
 		return nil, err
 	}
+	// The set-up below writes on the root goroutine. Let the workers Start
+	// launched (GC loop, outbox worker) reach their first wait before that:
+	// the GC loop compares a write counter when it starts, and whether it saw
+	// the CreateBucket below or not would otherwise depend on real time.
+	synctest.Wait()
 	st := w.Storage
 	b, k := bn("bucket"), ok("movie")
 	if err := st.CreateBucket(ctx, b); err != nil {
@@ -55,8 +95,40 @@ func runC40(rc *RunCtx) (*Violation, error) {
 	}
 	rc.Logf("stack=%s sqlBacked=%v versioned=%v gc=%v/%v", stack, sqlBacked, versioned, spec.GCGrace, spec.GCInterval)
 
-	// every version ever written, by ETag (bodies are unique)
+	// reach probe (outbox mode): part deletes the storage queued in the outbox
+	// (top seam) minus part deletes the outbox worker applied to the store
+	// below it; read from the seams' call counters, no yield, no database access
+	queuedDeletes := func() int { return 0 }
+	if outbox {
+		top := w.Stores[""].(*seams.PS)
+		under := w.Bottoms["default"]
+		for _, sm := range w.Seams {
+			if sm.Name == "default.ec" {
+				under = sm
+			}
+		}
+		if under != nil {
+			queuedDeletes = func() int { return top.CallCount("DeletePart") - under.CallCount("DeletePart") }
+		}
+	}
+
+	// every version ever written, by ETag (bodies are unique); bounds: the
+	// offsets at which a part of that version ends
 	versions := map[string][]byte{}
+	bounds := map[string]map[int]bool{}
+	register := func(multipart bool, parts [][]byte) (string, []byte) {
+		mv := &model.Ver{Multipart: multipart}
+		var whole []byte
+		ends := map[int]bool{}
+		for _, p := range parts {
+			mv.Parts = append(mv.Parts, model.Part{Body: p})
+			whole = append(whole, p...)
+			ends[len(whole)] = true
+		}
+		versions[mv.ETag()] = whole
+		bounds[mv.ETag()] = ends
+		return mv.ETag(), whole
+	}
 	seq := 0
 	mkBody := func(parts int, size int) [][]byte {
 		seq++
@@ -66,40 +138,91 @@ func runC40(rc *RunCtx) (*Violation, error) {
 		}
 		return out
 	}
+	// version ids of the versions written so far, in commit order (versioned buckets)
+	var vids []string
 	var viol *Violation
 	write := func(c int, parts [][]byte) error {
 		up, err := st.CreateMultipartUpload(ctx, b, k, nil, nil, nil)
 		if err != nil {
 			return err
 		}
-		var whole []byte
 		for i, p := range parts {
 			if _, err := st.UploadPart(ctx, b, k, up.UploadId, int32(i+1), bytes.NewReader(p), nil); err != nil {
 				return err
 			}
-			whole = append(whole, p...)
 		}
 		// the version becomes visible inside CompleteMultipartUpload, before the
 		// call returns to this task: register it as in-flight first (its ETag is
 		// computed from the parts, independently of the implementation)
-		mv := &model.Ver{Multipart: true}
-		for _, p := range parts {
-			mv.Parts = append(mv.Parts, model.Part{Body: p})
-		}
-		versions[mv.ETag()] = whole
+		etag, whole := register(true, parts)
 		res, err := st.CompleteMultipartUpload(ctx, b, k, up.UploadId, nil, nil)
 		if err != nil {
 			return err
 		}
-		if res.ETag != mv.ETag() {
-			return fmt.Errorf("complete returned ETag %s, expected %s", res.ETag, mv.ETag())
+		if res.ETag != etag {
+			return fmt.Errorf("complete returned ETag %s, expected %s", res.ETag, etag)
+		}
+		if res.VersionID != nil {
+			vids = append(vids, *res.VersionID)
 		}
 		rc.Logf("c%d wrote %s (%d parts, %d bytes)", c, res.ETag, len(parts), len(whole))
 		return nil
 	}
+	// appendTo adds one part to the object whose parts are have (nil: no
+	// object); only used while no other task writes the key.
+	appendTo := func(c int, have [][]byte, part []byte) ([][]byte, error) {
+		now := append(append([][]byte(nil), have...), part)
+		etag, whole := register(true, now)
+		res, err := st.AppendObject(ctx, b, k, bytes.NewReader(part), nil, nil)
+		if err != nil {
+			return nil, err
+		}
+		if res.ETag != etag || res.Size != int64(len(whole)) {
+			return nil, fmt.Errorf("append returned ETag %s size %d, expected %s size %d", res.ETag, res.Size, etag, len(whole))
+		}
+		rc.Logf("c%d appended part %d -> %s (%d bytes)", c, len(now), res.ETag, len(whole))
+		return now, nil
+	}
+	// writeByAppends builds the object with PutObject + one AppendObject per further part.
+	writeByAppends := func(c int, parts [][]byte) error {
+		etag, _ := register(false, parts[:1])
+		res, err := st.PutObject(ctx, b, k, nil, bytes.NewReader(parts[0]), nil, nil)
+		if err != nil {
+			return err
+		}
+		if res.ETag == nil || *res.ETag != etag {
+			return fmt.Errorf("put returned ETag %v, expected %s", res.ETag, etag)
+		}
+		if res.VersionID != nil {
+			vids = append(vids, *res.VersionID)
+		}
+		have := parts[:1]
+		for _, p := range parts[1:] {
+			if have, err = appendTo(c, have, p); err != nil {
+				return err
+			}
+		}
+		return nil
+	}
+	nParts := func() int {
+		if outbox {
+			return 3 + g.Int(3)
+		}
+		return 2 + g.Int(2)
+	}
+	// cur: the parts of the current object as long as a single task writes the
+	// key of an unversioned bucket (what an append extends)
+	var cur [][]byte
 	// initial content, written before the race starts
 	init := rc.S.Go("init", func(t *sim.Task) {
-		if err := write(-1, mkBody(2+g.Int(2), []int{200, 1500, 5000}[g.Int(3)])); err != nil {
+		cur = mkBody(nParts(), []int{200, 1500, 5000}[g.Int(3)])
+		var err error
+		if outbox && g.Chance(1, 3) {
+			err = writeByAppends(-1, cur)
+		} else {
+			err = write(-1, cur)
+		}
+		if err != nil {
 			viol = rc.Fail("unexpected-error", "initial-write", "initial write failed: %v", err)
 		}
 	})
@@ -109,6 +232,15 @@ func runC40(rc *RunCtx) (*Violation, error) {
 	if viol != nil {
 		return viol, nil
 	}
+	if outbox {
+		// the race starts with the initial parts still queued in the outbox, or
+		// after the worker had time to flush them (unless the scheduler stalls it)
+		if settle := []time.Duration{0, 0, 3 * time.Second, 40 * time.Second}[g.Int(4)]; settle > 0 {
+			if err := rc.S.RunFor(settle); err != nil {
+				return nil, err
+			}
+		}
+	}
 	var tasks []*sim.Task
 	nWriters := 1 + g.Int(2)
 	for c := 0; c < nWriters; c++ {
@@ -117,26 +249,65 @@ func runC40(rc *RunCtx) (*Violation, error) {
 			kind  string
 			parts [][]byte
 			think time.Duration
+			pick  int
 		}
 		var plans []wplan
 		for i, n := 0, 1+g.Int(3); i < n; i++ {
 			kind := []string{"overwrite", "overwrite", "delete"}[g.Int(3)]
-			plans = append(plans, wplan{kind: kind, parts: mkBody(2+g.Int(2), []int{200, 1500, 5000}[g.Int(3)]), think: time.Duration(1+g.Int(400)) * time.Millisecond})
+			pl := wplan{kind: kind, parts: mkBody(nParts(), []int{200, 1500, 5000}[g.Int(3)]), think: time.Duration(1+g.Int(400)) * time.Millisecond}
+			if outbox {
+				switch {
+				case versioned && g.Chance(1, 2):
+					// only a version delete removes parts in a versioned bucket
+					pl.kind, pl.pick = "delete-version", g.Int(8)
+				case !versioned && nWriters == 1 && g.Chance(1, 5):
+					pl.kind = "append"
+				case kind == "overwrite" && !versioned && nWriters == 1 && g.Chance(1, 4):
+					pl.kind = "overwrite-by-appends"
+				}
+			}
+			plans = append(plans, pl)
 		}
 		tasks = append(tasks, rc.S.Go(fmt.Sprintf("w%d", c), func(t *sim.Task) {
 			for _, p := range plans {
 				rc.S.Sleep(p.think)
-				if p.kind == "delete" {
+				switch p.kind {
+				case "delete":
 					if _, err := st.DeleteObject(ctx, b, k, nil); err != nil {
 						viol = rc.Fail("unexpected-error", "delete", "w%d delete failed: %v", c, err)
 						return
 					}
+					cur = nil
 					rc.Logf("w%d deleted", c)
-					continue
-				}
-				if err := write(c, p.parts); err != nil {
-					viol = rc.Fail("unexpected-error", "overwrite", "w%d overwrite failed: %v", c, err)
-					return
+				case "delete-version":
+					if len(vids) == 0 {
+						continue
+					}
+					// newest first: pick 0 is the version a plain GET resolves (unless deleted already)
+					vid := vids[len(vids)-1-p.pick%len(vids)]
+					if _, err := st.DeleteObject(ctx, b, k, &storage.DeleteObjectOptions{VersionID: &vid}); err != nil && !absentKind(classify(err)) {
+						viol = rc.Fail("unexpected-error", "delete-version", "w%d delete of version %d failed: %v", c, p.pick, err)
+						return
+					}
+					rc.Logf("w%d deleted version #%d", c, len(vids)-1-p.pick%len(vids))
+				case "append":
+					var err error
+					if cur, err = appendTo(c, cur, p.parts[0]); err != nil {
+						viol = rc.Fail("unexpected-error", "append", "w%d append failed: %v", c, err)
+						return
+					}
+				case "overwrite-by-appends":
+					cur = p.parts
+					if err := writeByAppends(c, p.parts); err != nil {
+						viol = rc.Fail("unexpected-error", "overwrite", "w%d overwrite (put+appends) failed: %v", c, err)
+						return
+					}
+				default:
+					cur = p.parts
+					if err := write(c, p.parts); err != nil {
+						viol = rc.Fail("unexpected-error", "overwrite", "w%d overwrite failed: %v", c, err)
+						return
+					}
 				}
 			}
 		}))
@@ -173,10 +344,16 @@ func runC40(rc *RunCtx) (*Violation, error) {
 				var got []byte
 				var rerr error
 				buf := make([]byte, 8192)
+				probed := false
 				for n := 0; ; n++ {
 					rc.S.Yield("download.read")
 					if n == 1 && stall > 0 {
 						rc.S.Sleep(stall)
+					}
+					if outbox && !probed && len(got) > 0 && len(got) < len(want) && bounds[o.ETag][len(got)] && queuedDeletes() > 0 {
+						// the next read opens a further part while part deletes wait in the outbox
+						probed = true
+						rc.Stats.Inc("probe.c40_part_opened_while_part_deletes_queued")
 					}
 					sz := sizes[n%len(sizes)]
 					m, e := rds[0].Read(buf[:sz])
@@ -230,11 +407,27 @@ func runC40(rc *RunCtx) (*Violation, error) {
 	return viol, nil
 }
 
+// c40OutboxPolicy: the preempting policy of the concurrent scenarios, plus in
+// two of three runs a scheduler that now and then leaves a background worker
+// (outbox worker, its heartbeat, GC) parked for up to 1 or 5 simulated seconds.
+func c40OutboxPolicy(g *sim.Tape, tier string) sim.Policy {
+	p := concPolicy(g, tier)
+	p.StallDen = []int{0, 10, 25}[g.Int(3)]
+	p.StallMax = []time.Duration{time.Second, 5 * time.Second}[g.Int(2)]
+	return p
+}
+
 func init() {
 	Register(&Scenario{
 		Prop: "C40", Name: "slow-download", Policy: concPolicy,
 		Rule: "1-2 reader tasks download a multi-part object slowly (a yield before every read, seeded read sizes, a mid-body stall) while 1-2 writer tasks overwrite it with other multi-part content or delete it and the real GC loop runs with a 1-100 ms grace window; transaction-free (fs, fs+tink, erasure coding) and SQL-backed stacks, versioned and unversioned buckets; oracle: delivered bytes are a prefix of the version resolved at request start and the stream ends with all of it or an error (SQL-backed: always all of it); non-trivial = at least 2 versions written; distinct = distinct interleaving",
 		Real: realStack,
 		Run:  runC40,
+	})
+	Register(&Scenario{
+		Prop: "C40", Name: "slow-download-outbox", Policy: c40OutboxPolicy,
+		Rule: "slow-download on stacks with the part outbox (outbox over fs, fs+tink, fs+gzip, erasure-coded fs shards, under zstd; 1 in 8 over the SQL part store; lease 1-30 s): the object has 3-5 parts, written as a multipart upload or as PutObject + AppendObjects; the race starts with the initial parts still queued in the outbox or 3-40 s later; writers overwrite, delete, delete versions (versioned buckets: any version written so far, newest first) and, when a single task writes an unversioned key, append a part or rebuild the object by put+appends; the outbox worker's pace is the scheduler's choice (preemption at every seam/tx point, and in 2 of 3 runs background workers are left parked for up to 1-5 s: Policy.StallDen), so a reader that holds the first part(s) open opens its next part before, while and after the worker applies the queued part deletes; same oracle as slow-download; probe.c40_part_opened_while_part_deletes_queued counts downloads that crossed a part boundary while part deletes were queued; non-trivial = at least 2 versions written",
+		Real: realStack,
+		Run:  func(rc *RunCtx) (*Violation, error) { return runC40Mode(rc, true) },
 	})
 }
